@@ -105,7 +105,8 @@ def run(ck: Check):
             oracle_c04(ck, ctx, run_)
     # one Lithium / testcase / strategy object for two consecutive files (nothing of the first file may show up
     # in what the test sees of the second)
-    from universe import session_universe
+    from universe import marker_matrix, session_universe
+    marker_matrix(lambda strategy, cfg, tc, **kw: ex.dfs(strategy, cfg, tc, **kw), quick, others=("minimize-around", "minimize-balanced"))
     session_universe(ck, oracle_c04, quick=quick)
     from scale import big_frame_and_subdeletion
     big_frame_and_subdeletion(ck, frame=False, sub=True)
